@@ -261,7 +261,13 @@ class BoomAssert(AssertionError):
     pass
 
 
-BOOMS = [Boom, BoomRuntime, BoomLookup, BoomOS, BoomTimeout, BoomAssert, Boom, BoomRuntime]
+class BoomFalsy(Exception):
+    """an exception object that is falsy (a collection of errors that happens to be empty, say)"""
+    def __bool__(self):
+        return False
+
+
+BOOMS = [Boom, BoomRuntime, BoomLookup, BoomOS, BoomTimeout, BoomAssert, Boom, BoomFalsy]
 
 
 async def body(job):
